@@ -854,6 +854,19 @@ impl IndexerHandle {
     }
 }
 
+#[cfg(feature = "verif-hooks")]
+impl IndexerHandle {
+    /// verif-hooks: a handle over an explicit store, without the tx-pool overlay
+    pub(crate) fn verif_new(store: RocksdbStore, request_limit: usize) -> Self {
+        IndexerHandle {
+            store,
+            pool: None,
+            request_limit,
+            timeout_limit: Duration::from_secs(3600),
+        }
+    }
+}
+
 const MAX_PREFIX_SEARCH_SIZE: usize = u16::MAX as usize;
 
 // a helper fn to build query options from search parameters, returns prefix, from_key, direction and skip offset
